@@ -21,9 +21,15 @@ GATES = ["names_checked", "indexed_names", "nested_names", "three_digit_names", 
 
 
 def check_message(ctx, identity, enc):
+    import pyrtcm
     from pyrtcm import RTCMMessage
-    from pyrtcm.rtcmhelpers import att2idx, att2name, datadesc
+    from pyrtcm import rtcmhelpers as H
 
+    # the helpers are documented as `from pyrtcm import datadesc, att2idx, att2name`: every other message goes through
+    # the package-level names, the rest through the helper module
+    ns = pyrtcm if len(enc.payload) % 2 == 0 else H
+    att2idx, att2name, datadesc = ns.att2idx, ns.att2name, ns.datadesc
+    ctx.hit("via_package_namespace" if ns is pyrtcm else "via_helper_module")
     _, fields = refmodel.tables()
     try:
         m = RTCMMessage(payload=enc.payload)
@@ -109,8 +115,16 @@ def run(ctx):
 
 
 def replay(ctx, p):
-    from pyrtcm.rtcmhelpers import att2idx, att2name, datadesc
+    import pyrtcm
+    from pyrtcm import rtcmhelpers as H
 
+    for ns in (H, pyrtcm):
+        _replay_ns(ctx, p, ns.att2idx, ns.att2name, ns.datadesc)
+        if ctx.violations:
+            return
+
+
+def _replay_ns(ctx, p, att2idx, att2name, datadesc):
     _, fields = refmodel.tables()
     name, key, idx = p["name"], p["key"], tuple(p["index"])
     try:
